@@ -100,6 +100,14 @@ def compare(case, obs):
     if "meta" in obs and not obs["meta"]:
         out.append(("header-meta", "the header dump differs from the dump of the module restricted to its public "
                                    "interface: %s" % json.dumps(obs.get("meta_diff"))[:300]))
+    if "meta_nnode" in obs and obs.get("meta"):
+        # "statements of public function bodies never appear in it": the header's node buffer holds exactly the nodes
+        # the public interface needs -- as many as the real parser pushes for the restricted module on its own
+        # (which, being all-private, carries one private-zone marker if it is not empty)
+        want = obs["meta_nnode"] - (1 if case["h"] else 0)
+        if obs.get("hnode") != want:
+            out.append(("header-extra-nodes", "the header buffer has %s nodes, the public interface alone parses to %s" %
+                        (obs.get("hnode"), want)))
     if obs.get("malformed"):
         out.append(("header-malformed", "%d MALFORMED nodes in the dumps" % obs["malformed"]))
     return out
